@@ -68,3 +68,19 @@ Proof.
     + cbn [render_segs]. now rewrite (IH cache CO Us).
   - cbn [render_segs]. now rewrite (IH cache CO Us).
 Qed.
+
+(* ------------------------------------------------------------------ NO_COLOR from the environment *)
+Lemma no_color_env_convention arg e :
+  no_color_convention_b arg (match e_no_color e with Some _ => true | None => false end) (no_color_of arg e) = true.
+Proof. unfold no_color_convention_b, no_color_of. destruct arg as [[|]|]; [reflexivity|reflexivity|]. destruct (e_no_color e); reflexivity. Qed.
+
+Theorem no_color_env_params ft tty cs lw e v fx fc segs :
+  e_no_color e = Some v ->
+  let k := cfg_of_env ft tty cs None lw e fx fc in
+  k_no_color k = true
+  /\ (segs_ok k segs = true -> forallb ctl_colorless segs = true ->
+      exists bytes, render_buffer k segs = Ok bytes /\ no_color_params_b bytes = true).
+Proof.
+  intros E k. assert (N : k_no_color k = true) by (unfold k, cfg_of_env, no_color_of; cbn; now rewrite E).
+  split; [exact N|]. intros OK CL. exact (no_color_params k segs N OK CL).
+Qed.
